@@ -572,6 +572,15 @@ class Interp:
                     raise AbsRaise(T('exc', r.name, t))
             except CannotEval:
                 pass
+        # the outcome of a pure call is a function of its arguments: what
+        # this path already assumed about the same call holds again
+        d = T('defined', t)
+        for at, ab in self.assumptions:
+            if ab is True and isinstance(at, T):
+                if at is d or at == d:
+                    return
+                if at.op == 'raises' and at.args[0] == t:
+                    raise AbsRaise(T('exc', at.args[1], t))
         c = self.choose(len(may) + 1)
         if c > 0:
             self.assumptions.append((T('raises', t, may[c - 1]), True))
